@@ -5,7 +5,7 @@ from mc import core, det, xstate
 PROPERTY = 'C19'
 ENGINE = 'E2 explicit-state BFS to fixpoint over the real SPFLBArray (canonical state = list contents + closed flag + cached chunk files + directory listing) + all histories up to depth k without dedup'
 LEVEL = 'model_checking'
-DIRECTED_ADDITIONS = 'non-perturbing read-back (cold-cache states), configurations with 12 and 70 chunk files, a full-size value ending in zero bytes, oversized values with a leading zero byte, generator / tuple slice values'      # members added during the seeded-change campaign (DESIGN 7); counted under their own vacuity counters
+DIRECTED_ADDITIONS = 'relative array paths used from a working directory other than the one the library was imported in (child interpreter), non-perturbing read-back (cold-cache states), configurations with 12 and 70 chunk files, a full-size value ending in zero bytes, oversized values with a leading zero byte, generator / tuple slice values'      # members added during the seeded-change campaign (DESIGN 7); counted under their own vacuity counters
 
 
 
@@ -69,6 +69,9 @@ def units(tier, seed):
 
 
 # ------------------------------------------------------------------ system under test + model
+START_CWD = os.getcwd()
+
+
 class Sut:
     __slots__ = ('arr', 'model', 'closed', 'dir', 'path', 'stray', 'must_rebuild')
 
@@ -90,6 +93,9 @@ class ArraySystem:
         }
         self.allowed = {'a_meta'} | {'a_%d' % k for k in range(-(-n // per))}
         self.home = det.workdir('c19')
+        # environment variant 'relative-paths': the array is named by a relative path and the working directory at creation and use
+        # (the array's directory, unchanged for as long as the object is used) is not the one the library was imported in
+        self.relative = bool(os.environ.get('VERIF_RELATIVE_PATHS'))
         self.counter = 0
         self._alphabet = self._make_alphabet(reduced)
         self._closed_alphabet = [e for e in self._alphabet if e[0] in ('get', 'set', 'del', 'sget', 'sdel', 'sset', 'clear', 'iter', 'in', 'len')
@@ -166,6 +172,9 @@ class ArraySystem:
         s.dir = os.path.join(self.home, 'h%d' % self.counter)
         os.mkdir(s.dir)
         s.path = os.path.join(s.dir, 'a')
+        if self.relative:
+            os.chdir(s.dir)
+            s.path = 'a'
         s.arr = self.cls.create(s.path, item_size=self.size, array_len=self.n, item_num_in_one_file=self.per)
         s.model = [self.Z] * self.n
         s.closed = False
@@ -178,6 +187,8 @@ class ArraySystem:
             s.arr.close()
         except Exception:
             pass
+        if self.relative:
+            os.chdir(self.home)
         shutil.rmtree(s.dir, ignore_errors=True)
 
     def events(self, s):
@@ -313,6 +324,8 @@ class ArraySystem:
         probs = []
         if s.closed:
             return probs
+        if self.relative:
+            os.chdir(s.dir)
         try:
             full = s.arr[:]
             if full != s.model:
@@ -334,6 +347,8 @@ class ArraySystem:
         """complete read through the API that leaves no trace: chunk files the read had to open are closed again and chunk
         files it had to create are removed, so the lazily built cache and the directory are exactly as before.  If the
         private cache cannot be reached the object is marked for rebuild instead."""
+        if self.relative:
+            os.chdir(s.dir)
         before_cached = self.cached(s)
         before_files = set(os.listdir(s.dir))
         full = s.arr[:]
@@ -354,6 +369,8 @@ class ArraySystem:
         probs = []
         was_closed = s.closed
         exp = self.model_apply(s, ev)
+        if self.relative:
+            os.chdir(s.dir)
         try:
             got = ('ok', self.impl_apply(s, ev))
         except Exception as e:
@@ -374,6 +391,11 @@ class ArraySystem:
         if stray - s.stray:          # reported at the operation that creates it
             probs.append(('stray-file', opname, sorted(self.allowed), sorted(stray)))
         s.stray = stray
+        if self.relative and START_CWD != core.VERIF and not getattr(self, 'start_cwd_reported', False):
+            elsewhere = sorted(os.listdir(START_CWD))
+            if elsewhere:
+                self.start_cwd_reported = True
+                probs.append(('stray-file', opname + '/in-the-directory-the-library-was-imported-in', 'no file outside the array\'s directory', elsewhere[:6]))
         # after a failing operation the array is exactly as it was
         if got[0] == 'raise' and not s.closed and ev[0] != 'create-existing':
             try:
@@ -429,6 +451,8 @@ def run_unit(p, tier, seed):
         longest = max(seen.values(), key=len)
         r.sample({'config': cfg, 'states': st.states, 'transitions': st.transitions, 'alphabet': len(evs), 'max_depth': st.max_depth,
                   'a_deepest_history': [list(e) for e in longest]})
+        if system.relative:
+            os.chdir(os.path.dirname(system.home))
         shutil.rmtree(system.home, ignore_errors=True)
     else:
         system = ArraySystem(n, size, per, reduced=True)
@@ -446,6 +470,8 @@ def run_unit(p, tier, seed):
         r.count('dfs-histories', st.histories)
         r.outcome('dfs-complete/depth=%d' % depth)
         r.sample({'config': cfg, 'dfs_depth': depth, 'histories': st.histories, 'alphabet': [list(e) for e in system._alphabet[:6]]}, limit=1)
+        if system.relative:
+            os.chdir(os.path.dirname(system.home))
         shutil.rmtree(system.home, ignore_errors=True)
     return r
 
@@ -531,11 +557,14 @@ def replay(case, seed):
         kind, site = site_of(ev, prob)
         r.v(PROPERTY, 'SPFLBArray', kind, site, case, prob[2], prob[3])
     system.dispose(s)
+    if system.relative:
+        os.chdir(os.path.dirname(system.home))
     shutil.rmtree(system.home, ignore_errors=True)
     return r['violations']
 
 # a subset of the units is executed again in other environments (child interpreters): see core.run_variants
-ENV_VARIANTS = [{'name': 'python-O', 'flags': ['-O']}]
+ENV_VARIANTS = [{'name': 'python-O', 'flags': ['-O']},
+                {'name': 'relative-paths', 'cwd': 'scratch', 'env': {'VERIF_RELATIVE_PATHS': '1'}}]
 
 def variant_units(tier, seed, name):
     pred = lambda uid, p: p.get('kind') == 'dfs' and p.get('n') in (4, 5)
